@@ -4,6 +4,7 @@ package interp
 // interpreter and reports whether the behaviour the obligation guards against is observed.
 
 import (
+	"runtime"
 	"context"
 	"fmt"
 	"reflect"
@@ -79,3 +80,28 @@ var clo = mk()`); err != nil {
 		return before != after, fmt.Sprintf("host-held Named(1) before the cancelled evaluation: %d, after: %d", before, after)
 	}},
 }
+
+func init() {
+	blocking := func(src, call string) func() (bool, string) {
+		return func() (bool, string) {
+			// the function is compiled by a plain Eval (non-cancellable closures), then run under a
+			// cancelled EvalWithContext: its goroutine must not stay parked forever
+			i := verifNewInterp()
+			if _, err := i.Eval(src); err != nil {
+				return false, err.Error()
+			}
+			before := runtimeNumGoroutine()
+			err := verifCancelledEval(i, call, 50*time.Millisecond)
+			time.Sleep(400 * time.Millisecond)
+			after := runtimeNumGoroutine()
+			return after > before, fmt.Sprintf("EvalWithContext returned %v; goroutines before %d, after %d", err, before, after)
+		}
+	}
+	verifProtocolScenarios = append(verifProtocolScenarios,
+		verifScenario{"C09/interp.recv/blocking:races-done", blocking(`func F(c chan int) int { return <-c }`, `F(make(chan int))`)},
+		verifScenario{"C09/interp.recv2/blocking:races-done", blocking(`func F(c chan int) bool { _, ok := <-c; return ok }`, `F(make(chan int))`)},
+		verifScenario{"C09/interp.send/blocking:races-done", blocking(`func F(c chan int) { c <- 1 }`, `F(make(chan int))`)},
+	)
+}
+
+func runtimeNumGoroutine() int { return runtime.NumGoroutine() }
